@@ -746,7 +746,7 @@ def rule_R16_8(ctx, rule_id="R16.8"):
                 not any(any(True for _ in g.aggregates(ERR, "IncorrectType")) for g in prog.closures_of(f.path)):
             continue
         ptys = f.locals[1:f.arg_count + 1]
-        if not any("ast::RawExpr" in t for t in ptys):
+        if not any(__import__("anchors").mentions_expr(prog, t) for t in ptys):
             continue      # not handed an expression
         evals = [c for c in f.calls() if not c.is_ptr and c.res in reach_ev]
         if not evals:
